@@ -294,7 +294,7 @@ def run(tier, seed):
     cases_v, cases, summary = r
     res.coverage.update({
         "evaluations": summary["cases"], "distinct_nontrivial": summary["distinct_nontrivial"],
-        "rule": "generated roles (1-2 roles x 1-4 signals: event/scalar/delta x ts_now/ts_deltasecs/ts_rfc3339/ts_log, expandable empty group or spelled-out \\S+ group, whole-line patterns, value classes \\S+ \\d+ [-+.0-9eE]+ \\w+ rest-of-line, and the everything-is-the-text shape that also matches the empty string), 1-3 actors per role (separate `plays` lines or siblings of one `p* play N role` line), 0-3 observers per signal through `watches <actor>` / `watches every <role>` clauses (+ in 1 of 2 an auditor mentioning a signal of any kind in its expressions, auditing throughout or only while a condition on that signal / the mood / t holds, in half of these as the ONLY watcher of the signal), x 4-25 items (lines of all actors interleaved, blank lines, matching 0/1/several signals, repeated and changing values in many numeral syntaxes incl. hexadecimal floats, magnitudes beyond 2^63 up to 1e308, denormals and underflow, malformed numerals and dates, time going forth/back/equal/far future/before the play start, mood changes, end of play), all through the real detectSignals -> checkEvent -> collectObservation via the hook; non-trivial = distinct (config, items) with >= 3 lines and >= 3 expected rows",
+        "rule": "generated roles (1-2 roles x 1-4 signals: event/scalar/delta x ts_now/ts_deltasecs/ts_rfc3339/ts_log, expandable empty group or spelled-out \\S+ group, whole-line patterns, value classes \\S+ \\d+ [-+.0-9eE]+ \\w+ rest-of-line, and the everything-is-the-text shape that also matches the empty string; a group name repeated in two alternatives in 1 of 4 value patterns; in 1 of 4 cases a base role with two `extends` siblings adding a same-named signal), 1-3 actors per role (separate `plays` lines or siblings of one `p* play N role` line), 0-3 observers per signal through `watches <actor>` / `watches every <role>` clauses (+ in 1 of 2 an auditor mentioning a signal of any kind in its expressions, auditing throughout or only while a condition on that signal / the mood / t holds, in half of these as the ONLY watcher of the signal), x 4-25 items (lines of all actors interleaved, blank lines, matching 0/1/several signals, repeated and changing values in many numeral syntaxes incl. hexadecimal floats, magnitudes beyond 2^63 up to 1e308, denormals and underflow, malformed numerals and dates, time going forth/back/equal/far future/before the play start, mood changes, end of play), all through the real detectSignals -> checkEvent -> collectObservation via the hook; non-trivial = distinct (config, items) with >= 3 lines and >= 3 expected rows",
         "samples": summary["samples"][:2],
         "distribution": summary["stats"],
         "traces_validated_against_impl": summary["cases"],
